@@ -152,6 +152,60 @@ func evLineAxis(t *Tracer, axis int, lon0, lat0, alt0, lon1, lat1, alt1 float64,
 	t.Emit(e, true)
 }
 
+// evLineAxisCount: a very long axis-parallel segment, recorded by counts (see Line.tla, LineAxisCountAccept).
+func evLineAxisCount(t *Tracer, axis int, lon0, lat0, alt0, lon1, lat1, alt1 float64, H, V int64) {
+	p0, err0 := object.NewPoint(lon0, lat0, alt0)
+	p1, err1 := object.NewPoint(lon1, lat1, alt1)
+	if err0 != nil || err1 != nil {
+		return
+	}
+	ends, err := shape.GetExtendedSpatialIdsOnPoints([]*object.Point{p0, p1}, H, V)
+	if err != nil || len(ends) != 2 {
+		return
+	}
+	sv, ok0 := ParseExt(ends[0])
+	ev, ok1 := ParseExt(ends[1])
+	if !ok0 || !ok1 {
+		return
+	}
+	d := relArr(ev, sv)
+	for i := 0; i < 3; i++ {
+		if i != axis-1 && d[i] != 0 {
+			return
+		}
+	}
+	o, res := guard(func() (any, error) { return shape.GetExtendedSpatialIdsOnLine(p0, p1, H, V) })
+	e := absW.ev("LineAxisCount", map[string]any{"axis": axis, "n": d[axis-1],
+		"p0": hexTriple(lon0, lat0, alt0), "p1": hexTriple(lon1, lat1, alt1), "H": H, "V": V})
+	e.O = o
+	e.Real = map[string]any{"start": ends[0], "end": ends[1]}
+	cnt := map[string]any{"entries": 0, "distinct": 0, "lo": 0, "hi": 0, "offaxis": 0}
+	if o == "ok" {
+		seen := map[string]struct{}{}
+		var lo, hi, off int64
+		for _, s := range strs(res) {
+			id, ok := ParseExt(s)
+			if !ok || id.H != H || id.V != V {
+				e.Bad = "malformed or wrong zoom: " + s
+				continue
+			}
+			seen[s] = struct{}{}
+			rel := relArr(id, sv)
+			for i := 0; i < 3; i++ {
+				if i != axis-1 && rel[i] != 0 {
+					off++
+				}
+			}
+			lo, hi = minI(lo, rel[axis-1]), maxI(hi, rel[axis-1])
+		}
+		cnt = map[string]any{"entries": len(strs(res)), "distinct": len(seen), "lo": lo, "hi": hi, "offaxis": off}
+	} else {
+		e.Bad = "outcome " + o
+	}
+	e.R = cnt
+	t.Emit(e, true)
+}
+
 func evLine(t *Tracer, lon0, lat0, alt0, lon1, lat1, alt1 float64, H, V int64, sp bool) {
 	p0, err0 := object.NewPoint(lon0, lat0, alt0)
 	p1, err1 := object.NewPoint(lon1, lat1, alt1)
@@ -454,6 +508,13 @@ func driveLongOblique(t *Tracer, r Rng, k int) {
 
 func driveLongLines(t *Tracer, r Rng, k int) {
 	driveLongOblique(t, r, 2+k/5)
+	for i := 0; i < 1+k/10; i++ { // a flight leg of a hundred kilometres at metre resolution
+		n := r.Pick(65535, 65536, 65537, 131071, 131072, 131073, r.In(66000, 140000), r.In(140000, 300000))
+		axis := 1 + r.Intn(3)
+		H, V := r.In(22, 27), r.In(22, 27)
+		lon0, lat0, alt0, lon1, lat1, alt1 := r.axisSegment(axis, n, H, V)
+		evLineAxisCount(t, axis, lon0, lat0, alt0, lon1, lat1, alt1, H, V)
+	}
 	for i := 0; i < k; i++ {
 		// lengths around the powers of two where an implementation might switch strategy, and beyond
 		n := r.Pick(1023, 1024, 1025, 2047, 2048, 2049, 4095, 4096, 4097, 8191, 8192, 8193, r.In(1000, 12000), r.In(4097, 9000))
